@@ -101,6 +101,13 @@ func c16Shapes() []*c16Case {
 	twice.HasUnion = true
 	twice.Tokens = []gram.TokDecl{{Name: "TA", Tag: "v"}, {Name: "TA", Num: 100}}
 	add("token-declared-twice", twice)
+	long := &gram.Spec{Start: "S", HasUnion: true, Union: " v int ", Tokens: []gram.TokDecl{{Name: "TA", Tag: "v"}}, Types: []gram.TypeDecl{{Tag: "v", Names: []string{"S"}}}}
+	lr := gram.Rule{L: "S", Action: " $$ = $1 + $9 + $10 + $11 + $12 "}
+	for k := 0; k < 12; k++ {
+		lr.R = append(lr.R, "TA")
+	}
+	long.Rules = []gram.Rule{lr, {L: "S", R: []string{"TA"}, Action: " $$ = $1 "}}
+	add("dollar-10-to-12", long)
 	for _, n := range gram.Families() {
 		add("family-"+n.Name, n.Spec)
 	}
